@@ -5,8 +5,10 @@ import PBProofs.Lemmas.StopProto
 Theorems about `PB.StopProto` (model of `modules/modules.go`, `worker.go`, `tasks.go`, `microtasks.go`,
 `status.go`, `stop.go`): all reachable states = every dependency graph, every number and kind of running work
 items, every number of finishing goroutines, every interleaving of their atomic steps with the stop sequence,
-any number of start/stop cycles. Timeouts are a nondeterministic action; the statement's proviso ("as long as each
-returns within the stop timeout") is the hypothesis `tmo = 0`.
+any number of start/stop cycles **and of failed start attempts (the module returns to `Offline` without having been
+stopped, its work and its context live on), work started before the first start (prep phase), restarts after a stop
+that timed out**. Timeouts are a nondeterministic action; the statement's proviso ("as long as each returns within
+the stop timeout") is the hypothesis `tmo = 0`.
 
 On the pinned tree the full-strength safety statement was FALSE (two straggler races across phases: a check parked
 between its counter reads and the CAS across a restart; the start routine's goroutine clearing `ctrlFuncRunning`
@@ -28,6 +30,17 @@ theorem gen_matches_model :
                 "close(stopComplete)"] ∧
     revDepWaitCond = "revDep.Status() > StatusOffline" ∧ onlineSoonResult = "!m.stopFlag.IsSet()" ∧
     serviceWorkerLoopHead = "if m.IsStopping() { return }" ∧
+    -- `start()`: status, then cancel the current context, install a fresh one, clear the stop flag (`startOps`),
+    -- all inside one locked section; its goroutine only writes the status (`online` / `startFail`); `prep()` only
+    -- writes the status; nothing else in the package replaces or cancels a module context
+    startSeq = ["m.Lock()", "if m.status != StatusOffline { return }", "m.status = StatusStarting",
+                "if m.cancelCtx != nil { m.cancelCtx() }",
+                "m.Ctx, m.cancelCtx = context.WithCancel(context.Background())", "m.stopFlag.UnSet()",
+                "m.Unlock()", "go"] ∧
+    startOps = [.cancelCur, .renew, .unsetFlag] ∧
+    startResultSeq = ["err:status=StatusOffline", "ok:status=StatusOnline", "ok:close(m.startComplete)"] ∧
+    prepSeq = ["status=StatusPreparing", "status=StatusOffline"] ∧
+    ctxWriters = ["start:m.Ctx", "initNewModule:literal"] ∧ ctxCancellers = ["start", "stopAllTasks"] ∧
     statusDead < statusOffline ∧ statusPreparing < statusOffline ∧ statusOffline < statusStopping ∧
     statusStopping < statusStarting ∧ statusStarting < statusOnline := by
   decide
@@ -87,17 +100,17 @@ def staleCheckerRun : List Act :=
    .cFast true, .cLock, .cFlag true, .cCtrl true, .cW true, .cT true, .cM true,   -- parked before the CAS
    .cFast true]                                                                  -- the other finisher …
 
-example : (run init staleCheckerRun).isSome = true := by decide
-example : (run init (staleCheckerRun ++ [.cLock])).isSome = false := by decide     -- … cannot enter the check
-example : (run init (staleCheckerRun ++ [.sTimeout, .sOffline])).isSome = false := by decide  -- nor can Offline be written
+example : (run prepped staleCheckerRun).isSome = true := by decide
+example : (run prepped (staleCheckerRun ++ [.cLock])).isSome = false := by decide     -- … cannot enter the check
+example : (run prepped (staleCheckerRun ++ [.sTimeout, .sOffline])).isSome = false := by decide  -- nor can Offline be written
 
 /-- former counterexample 2 (pinned tree): the start routine's goroutine performs its deferred `UnSet` only after
     the stopper's manual `Set`. In the repaired code the module goes `Online` only after that goroutine has cleared
     the flag and finished its check, so the schedule is not a run. -/
 def lateStartUnsetRun : List Act := [.startBegin, .ctrlSet, .fnExit, .online]
 
-example : (run init lateStartUnsetRun).isSome = false := by decide
-example : (run init [.startBegin, .ctrlSet, .fnExit, .ctrlUnset, .online]).isSome = true := by decide
+example : (run prepped lateStartUnsetRun).isSome = false := by decide
+example : (run prepped [.startBegin, .ctrlSet, .fnExit, .ctrlUnset, .online]).isSome = true := by decide
 
 /-- The completion channel is closed at most once per cycle: no double-close panic, in every reachable state. -/
 theorem single_close {s : St} (h : Reach s) : s.dbl = 0 ∧ s.k7 + s.closed ≤ 1 := by
@@ -226,13 +239,103 @@ theorem closed_wakes_stopper {s : St} (hc : s.closed = 1) (hw : s.spc = 5) : (st
   simp [step, hc, hw]
 
 /-- A worker / microtask / hook whose function starts on a module that is past the stopper's cancel (stopping or
-    stopped, not restarted) receives an already cancelled context. -/
-theorem late_work_sees_cancelled_ctx {s s' : St} {c : Bool} (h : Reach s) (hlate : 4 ≤ s.spc)
-    (hs : step s (.workEnter c) = some s') : c = true := by
+    stopped, no start attempt since) receives an already cancelled context — whichever of the module's contexts it is
+    handed (the current one, or for a task a child of an earlier one). -/
+theorem late_work_sees_cancelled_ctx {s s' : St} {g : Nat} {c : Bool} (h : Reach s) (hlate : 4 ≤ s.spc)
+    (hs : step s (.workEnter g c) = some s') : c = true := by
+  have hi := inv_reach h
+  have ho := oldLive_reach h
+  unfold StopProto.Inv at hi
+  have hctx : s.ctx = 1 := by grind
+  simp only [step] at hs
+  split at hs
+  · rename_i hg
+    have : s.genCancelled g = true := by
+      by_cases hgg : g = s.gen
+      · simp [St.genCancelled, hgg, hctx]
+      · exact genCancelled_of_oldLive_nil ho g hgg
+    exact hg.2.mpr this
+  · cases hs
+
+/-- **Clause 1 for every history.** (a) At every moment every context the module ever had, except the current one,
+    is cancelled: `start()` cancels the context it replaces, whether the module was stopped before or not (failed
+    start, work started in the prep phase, repeated attempts). (b) When the stopper invokes the stop routine (either
+    branch of `startCtrlFn`), while the stop routine runs and while the module stays stopped, the current one is
+    cancelled too — so *every* context ever handed to a piece of work of the module is cancelled, and (c) a running
+    work function that looks at its context (`ctxObs`) from the stopper's cancel on sees it cancelled, whatever
+    generation it holds. -/
+theorem every_context_cancelled_at_stopfn {s : St} (h : Reach s) :
+    (∀ g, g < s.gen → s.genCancelled g = true) ∧
+    (∀ s', s.status = statusStopping → step s .ctrlSet = some s' → ∀ g, g ≤ s.gen → s.genCancelled g = true) ∧
+    (∀ s', step s .ctrlUnsetNil = some s' → ∀ g, g ≤ s.gen → s.genCancelled g = true) ∧
+    (4 ≤ s.spc → ∀ g, g ≤ s.gen → s.genCancelled g = true) ∧
+    (∀ g c s', 4 ≤ s.spc → step s (.ctxObs g c) = some s' → c = true) := by
+  have hi := inv_reach h
+  have ho := oldLive_reach h
+  unfold StopProto.Inv at hi
+  have all : s.ctx = 1 → ∀ g, g ≤ s.gen → s.genCancelled g = true := by
+    intro hctx g _
+    by_cases hgg : g = s.gen
+    · simp [St.genCancelled, hgg, hctx]
+    · exact genCancelled_of_oldLive_nil ho g hgg
+  refine ⟨?_, ?_, ?_, ?_, ?_⟩
+  · intro g hg; exact genCancelled_of_oldLive_nil ho g (by omega)
+  · intro s' hst hs
+    apply all
+    simp only [step] at hs
+    (repeat' split at hs) <;> cases hs <;> grind
+  · intro s' hs
+    apply all
+    simp only [step] at hs
+    (repeat' split at hs) <;> cases hs <;> grind
+  · intro h4; apply all; grind
+  · intro g c s' h4 hs
+    simp only [step] at hs
+    split at hs
+    · rename_i hg
+      exact hg.2.mpr (all (by grind) g hg.1)
+    · cases hs
+
+/-- `start()` — first start, restart after a stop, retry after a failed attempt alike — leaves every earlier context
+    cancelled and installs a fresh live one with the next number. -/
+theorem start_cancels_every_earlier_context {s s' : St} (h : Reach s) (hs : step s .startBegin = some s') :
+    s'.gen = s.gen + 1 ∧ s'.genCancelled s'.gen = false ∧ s'.flag = 0 ∧
+    ∀ g, g ≤ s.gen → s'.genCancelled g = true := by
+  have hr := Reach.step h hs
+  have ho := oldLive_reach hr
+  simp only [step] at hs
+  simp only [startCtx, startOps, List.foldl, applyStartOp] at hs
+  split at hs
+  · cases hs
+    refine ⟨rfl, by simp [St.genCancelled], rfl, ?_⟩
+    intro g hg
+    exact genCancelled_of_oldLive_nil ho g (by dsimp only; omega)
+  · cases hs
+
+/-- What is true of a module that is not stopped: its current context is live until its stopper cancels it. In
+    particular after a **failed start** (status back to `Offline`, `spc = 0`) the context handed to the work that the
+    failed attempt left behind stays live — that work is told to stop only by the next `start()` (retry), and if
+    there is none, by nobody: the module is `Offline`, so neither module management nor `Shutdown` stops it. -/
+theorem unstopped_module_context_is_live {s : St} (h : Reach s) (hns : s.spc ≤ 3) :
+    s.genCancelled s.gen = false := by
   have hi := inv_reach h
   unfold StopProto.Inv at hi
+  have : s.ctx = 0 := by grind
+  simp [St.genCancelled, this]
+
+/-- … and a failed start changes nothing but the status: counters, context and flags stay as the attempt left
+    them; the module can be started again at once (`startBegin` enabled when no check holds the lock). -/
+theorem failed_start_leaves_work_and_context {s s' : St} (hs : step s .startFail = some s') :
+    s'.status = statusOffline ∧ s'.gen = s.gen ∧ s'.ctx = s.ctx ∧ s'.flag = s.flag ∧
+    s'.aW = s.aW ∧ s'.aT = s.aT ∧ s'.aM = s.aM ∧ (step s' .startBegin).isSome = true ∧
+    (step s' .stopBegin).isSome = false := by
   simp only [step] at hs
-  (repeat' split at hs) <;> cases hs <;> grind
+  split at hs
+  · rename_i hg
+    cases hs
+    simp [step, hg.2.1, hg.2.2.1, hg.2.2.2]
+    decide
+  · cases hs
 
 /-- `OnlineSoon()` is false from the stopper's `stopFlag.Set` until the module is started again, so `NewTask`
     returns a cancelled task, `Queue/StartASAP/Schedule` and `runWithLocking` (`isActive`) do nothing,
@@ -349,39 +452,88 @@ def chk : List Act := [.cFast true, .cLock, .cFlag true, .cCtrl true, .cW true, 
 /-- two workers, a task and a microtask running, start and stop routine present; a microtask arrives during the
     stop; everything returns; the last finisher's check completes the stop; late work after `Offline`. -/
 def cleanRun : List Act :=
-  [.startBegin, .ctrlSet, .fnEnter false, .inc .w, .workEnter false, .fnExit, .ctrlUnset, .cFast false, .online,
-   .inc .w, .inc .t, .inc .m, .workEnter false, .gate true,
+  [.startBegin, .ctrlSet, .fnEnter false, .inc .w, .workEnter 1 false, .fnExit, .ctrlUnset, .cFast false, .online,
+   .inc .w, .inc .t, .inc .m, .workEnter 1 false, .gate true,
    .stopBegin, .sCtrl, .dec .w true, .cFast false, .sFlag, .gate false, .sCancel, .ctrlSet, .fnEnter true,
-   .inc .m, .workEnter true, .dec .m false, .cFast true, .cLock, .cFlag true, .cCtrl false, .cUnlock,
+   .inc .m, .workEnter 1 true, .dec .m false, .cFast true, .cLock, .cFlag true, .cCtrl false, .cUnlock,
    .dec .t true, .dec .m true, .fnExit, .ctrlUnset,
    .cFast true, .cFast true, .cFast true, .cLock, .cFlag true, .cCtrl true, .cW false, .cUnlock,
    .dec .w true] ++ chk ++ [.cCas true, .cClose, .sWake, .cUnlock, .sOffline, .sReport,
    .cLock, .cFlag true, .cCtrl true, .cW true, .cT true, .cM true, .cCas false, .cUnlock,
-   .inc .w, .workEnter true, .gate false, .dec .w false] ++ chk ++ [.cCas false, .cUnlock]
+   .inc .w, .workEnter 1 true, .gate false, .dec .w false] ++ chk ++ [.cCas false, .cUnlock]
 
-def cleanEnd : St := (run init cleanRun).getD init
+def cleanEnd : St := (run prepped cleanRun).getD init
 
-example : run init cleanRun = some cleanEnd ∧ (cleanEnd.spc = 7 ∨ cleanEnd.spc = 8) ∧
+example : run prepped cleanRun = some cleanEnd ∧ (cleanEnd.spc = 7 ∨ cleanEnd.spc = 8) ∧
     cleanEnd.tmo = 0 ∧ cleanEnd.closed = 1 ∧ cleanEnd.fnpc = 3 := by decide
 
 /-- a quiet state with pending checks exists (hypotheses of `no_lost_completion` / `prompt_completion`). -/
-def quietMid : St := (run init (cleanRun.take 44)).getD init
+def quietMid : St := (run prepped (cleanRun.take 44)).getD init
 
-example : run init (cleanRun.take 44) = some quietMid ∧ 5 ≤ quietMid.spc ∧ quietMid.fnpc = 3 ∧
+example : run prepped (cleanRun.take 44) = some quietMid ∧ 5 ≤ quietMid.spc ∧ quietMid.fnpc = 3 ∧
     quietMid.aW + quietMid.bW = 0 ∧ quietMid.aT + quietMid.bT = 0 ∧ quietMid.aM + quietMid.bM = 0 ∧
     quietMid.closed = 0 ∧ 0 < mu quietMid := by decide
 
 /-- a service worker that answers the cancellation with `ErrRestartNow` leaves its loop; running it again is not a run
     of the model; before the flag is set it may be run again. -/
-example : (run init [.startBegin, .online, .inc .w, .workEnter false, .stopBegin, .sCtrl, .sFlag, .sCancel, .swReturn,
+example : (run prepped [.startBegin, .online, .inc .w, .workEnter 1 false, .stopBegin, .sCtrl, .sFlag, .sCancel, .swReturn,
     .swExit true, .dec .w true]).isSome = true := by decide
-example : (run init [.startBegin, .online, .inc .w, .workEnter false, .stopBegin, .sCtrl, .sFlag, .sCancel, .swReturn,
+example : (run prepped [.startBegin, .online, .inc .w, .workEnter 1 false, .stopBegin, .sCtrl, .sFlag, .sCancel, .swReturn,
     .swRerun]).isSome = false := by decide
-example : (run init [.startBegin, .online, .inc .w, .workEnter false, .swReturn, .swRerun, .workEnter false,
-    .stopBegin, .sCtrl, .swReturn, .sFlag, .swRerun, .workEnter false, .swReturn, .swExit true]).isSome = true := by decide
+example : (run prepped [.startBegin, .online, .inc .w, .workEnter 1 false, .swReturn, .swRerun, .workEnter 1 false,
+    .stopBegin, .sCtrl, .swReturn, .sFlag, .swRerun, .workEnter 1 false, .swReturn, .swExit true]).isSome = true := by decide
+
+/-! ### other life cycles: prep work, failed starts, retries, restart after a timed-out stop -/
+
+example : run init [.prepBegin, .prepDone] = some prepped := by decide
+
+/-- A worker started in the prep phase (context 0), a first start that launches a worker (context 1) and fails, a
+    second failing attempt, a third that succeeds; the stop. Each `start()` cancels the context it replaces: the
+    prep worker sees context 0 cancelled from the first start on, the worker of the first attempt sees context 1
+    live after the failure and cancelled from the retry on; at the stop routine's entry every context is cancelled. -/
+def failedStartRun : List Act :=
+  [.prepBegin, .ctrlSet, .fnEnter false, .inc .w, .workEnter 0 false, .fnExit, .ctrlUnset, .cFast false, .prepDone,
+   .startBegin, .ctxObs 0 true, .ctrlSet, .fnEnter false, .inc .w, .workEnter 1 false, .fnExit, .ctrlUnset, .cFast false,
+   .startFail, .ctxObs 1 false, .inc .m, .workEnter 1 false,
+   .startBegin, .ctxObs 1 true, .ctxObs 2 false, .ctrlSet, .fnExit, .ctrlUnset, .cFast false, .startFail,
+   .startBegin, .ctxObs 2 true, .ctrlSet, .fnExit, .ctrlUnset, .cFast false, .online, .inc .w, .workEnter 3 false,
+   .inc .t, .workEnter 2 true,                                                  -- a task created during attempt 2
+   .stopBegin, .sCtrl, .sFlag, .sCancel, .ctrlSet, .fnEnter true,
+   .ctxObs 0 true, .ctxObs 1 true, .ctxObs 2 true, .ctxObs 3 true]
+
+example : (run init failedStartRun).isSome = true := by decide
+/-- … the leftovers are counted: three workers, a task and a microtask are running when the stop routine is entered -/
+example : ((run init failedStartRun).getD init).aW = 3 ∧ ((run init failedStartRun).getD init).aM = 1 ∧
+    ((run init failedStartRun).getD init).aT = 1 ∧ ((run init failedStartRun).getD init).gen = 3 := by decide
+/-- observing context 1 live after the retry, or any context live in the stop routine, is not a run of the model -/
+example : (run init (failedStartRun.take 24 ++ [.ctxObs 1 false])).isSome = false := by decide
+example : (run init (failedStartRun ++ [.ctxObs 1 false])).isSome = false := by decide
+/-- a module whose start failed is not stopped: neither `stop()` nor a cancel is enabled, its context stays live -/
+example : (run init (failedStartRun.take 19 ++ [.stopBegin])).isSome = false := by decide
+example : (run init (failedStartRun.take 19 ++ [.sCancel])).isSome = false := by decide
+example : (run init (failedStartRun.take 19 ++ [.ctxObs 1 false, .workEnter 1 false])).isSome = true := by decide
+
+/-- Sensitivity to the shape of `start()`: with the cancel dropped, or performed after the renewal (on the NEW
+    context), the context of a failed attempt is replaced while live — it can never be cancelled afterwards —
+    respectively the fresh context is born cancelled. The model's `startOps` is the source's order (pinned in
+    `gen_matches_model`). -/
+def afterFailedStart : St := (run init (failedStartRun.take 19)).getD init
+
+example : afterFailedStart.status = statusOffline ∧ afterFailedStart.ctx = 0 ∧ afterFailedStart.gen = 1 := by decide
+example : (startCtx startOps afterFailedStart).oldLive = [] ∧ (startCtx startOps afterFailedStart).ctx = 0 := by decide
+example : (startCtx [.renew, .unsetFlag] afterFailedStart).oldLive = [1] := by decide
+example : (startCtx [.renew, .cancelCur, .unsetFlag] afterFailedStart).oldLive = [1] ∧
+    (startCtx [.renew, .cancelCur, .unsetFlag] afterFailedStart).ctx = 1 := by decide
+
+/-- restart after a stop that timed out: the worker of the first cycle is still running (context 1, cancelled) when
+    the module is started again and stopped a second time. -/
+example : (run prepped [.startBegin, .online, .inc .w, .workEnter 1 false, .stopBegin, .sCtrl, .sFlag, .sCancel,
+    .ctrlUnsetNil, .cFast true, .cLock, .cFlag true, .cCtrl true, .cW false, .cUnlock, .sTimeout, .sOffline, .sReport,
+    .startBegin, .online, .ctxObs 1 true, .inc .w, .workEnter 2 false, .stopBegin, .sCtrl, .sFlag, .sCancel,
+    .ctxObs 1 true, .ctxObs 2 true]).isSome = true := by decide
 
 /-- a timeout run is accepted by the model (the proviso is a hypothesis, not a restriction of the model). -/
-example : (run init [.startBegin, .online, .inc .w, .stopBegin, .sCtrl, .sFlag, .sCancel, .ctrlUnsetNil,
+example : (run prepped [.startBegin, .online, .inc .w, .stopBegin, .sCtrl, .sFlag, .sCancel, .ctrlUnsetNil,
     .cFast true, .cLock, .cFlag true, .cCtrl true, .cW false, .cUnlock, .sTimeout, .sOffline, .sReport]).isSome = true := by
   decide
 
@@ -389,7 +541,7 @@ example : (run init [.startBegin, .online, .inc .w, .stopBegin, .sCtrl, .sFlag, 
     and stopping module 0 first is rejected. -/
 def chain3 : List (List Nat) := [[], [0], [1]]
 
-def upActs (i : Nat) : List SAct := [.mod i .startBegin, .mod i .online]
+def upActs (i : Nat) : List SAct := [.mod i .prepBegin, .mod i .prepDone, .mod i .startBegin, .mod i .online]
 def downActs (i : Nat) : List SAct :=
   [.mod i .stopBegin, .mod i .sCtrl, .mod i .sFlag, .mod i .sCancel, .mod i .ctrlUnsetNil, .mod i (.cFast true),
    .mod i .cLock, .mod i (.cFlag true),
